@@ -59,6 +59,8 @@ struct WKey<'a> {
 impl Serialize for WKey<'_> {
     fn serialize<S: Serializer>(&self, s: S) -> Result<S::Ok, S::Error> {
         match (self.ty, self.v) {
+            (KeyTy::NewtypeSpanned(name), Val::Spanned(_, _, x)) => WKey { ty: &KeyTy::NewtypeStr(name.clone()), v: x, cfg: self.cfg }.serialize(s),
+            (KeyTy::NewtypeSpanned(name), x @ Val::Str(_)) => WKey { ty: &KeyTy::NewtypeStr(name.clone()), v: x, cfg: self.cfg }.serialize(s),
             (KeyTy::SpannedStr, Val::Spanned(_, _, x)) => WKey { ty: &KeyTy::Str, v: x, cfg: self.cfg }.serialize(s),
             (KeyTy::Str, Val::Str(x)) | (KeyTy::SpannedStr, Val::Str(x)) => {
                 if self.cfg.flag(H4_COLLECT_STR) {
